@@ -85,7 +85,7 @@ def namings_for(pid, tier, seed, cid):
     case, and is applied to one case in `stride` (so that a finding can be tied to one class)."""
     spec = PROPS[pid]
     classes = spec.get('name_classes') or ()
-    out = [(0, names.Naming(('plain',), 0, seed))]
+    out = [(0, names.Naming((spec.get('base_class', 'plain'),), 0, seed))]
     if classes and spec.get('naming_matters', True):
         stride = spec.get('name_stride', {}).get(tier, 4 if tier == 'quick' else 2)
         h = int(hashlib.md5(cid.encode()).hexdigest(), 16)
@@ -365,7 +365,8 @@ prop('C08', fam_names('glencoe'), name_classes=ALL_NAME_CLASSES, naming_matters=
      assumptions=['constraints have distinct names (the format keys them by name)'])(roundtrip_script('glencoe'))
 prop('C07', fam_names('fide'), name_classes=ALL_NAME_CLASSES, naming_matters=True,
      assumptions=['names are XML-representable: no control characters'])(roundtrip_script('fide'))
-prop('C06', fam_names('afm'), name_classes=('afmword',), naming_matters=True, name_stride={'quick': 1, 'thorough': 1},
+prop('C06', fam_names('afm'), name_classes=('afmword',), base_class='afmword', naming_matters=True,
+     name_stride={'quick': 3, 'thorough': 1},
      assumptions=['names match the AFM WORD token; attribute names the LOWERCASE token; enumerated domain elements, '
                   'default and null values are text tokens; range bounds are integers'])(roundtrip_script('afm'))
 UVL_NAME_CLASSES = ('space', 'punct', 'uvlkw', 'opword', 'digit0', 'under0', 'nonascii')
